@@ -59,19 +59,66 @@ MODEL_ASSUME = {
 }
 
 
+def model_batch(tier):
+    """quick: curated corpus K; thorough: K plus the 37 single-rule programs of corpus G."""
+    if tier == "thorough":
+        return "kg", modelgen.load_corpus("k") + modelgen.load_corpus("g")
+    return "k", modelgen.load_corpus("k")
+
+
 def run_models(pid, tier, seed):
     t0 = time.time()
-    binary, infos = modelgen.build_models("k", modelgen.load_corpus("k"))
+    batch, theories = model_batch(tier)
+    binary, infos = modelgen.build_models(batch, theories)
     bad = [i for i in infos if not i["ok"]]
     if bad:
         raise common.MachineryError("corpus theories failed to build: " + "; ".join(f"{i['name']}: {i.get('error','')[:300]}" for i in bad[:5]))
     res = common.run_engine(binary, [pid, "--tier", tier], timeout=6 * 3600)
     viol = res.get("violations", [])
+    neg = negative_corpus(pid)
+    viol += neg["violations"]
+    res["negative_programs_checked"] = neg["checked"]
     return common.finish(pid, tier, "model_checking", res, viol, t0, MODEL_ASSUME_COMMON + MODEL_ASSUME.get(pid, []), seed)
 
 
+def negative_corpus(pid):
+    """Compile-time half of C06 / C15: programs that would let close() allocate elements without `!`
+    resp. create enum elements without a constructor must be rejected by the compiler."""
+    import shutil
+    ndir = os.path.join(common.ROOT, "corpus", "neg")
+    out = {"checked": 0, "violations": []}
+    if not os.path.isdir(ndir):
+        return out
+    for f in sorted(os.listdir(ndir)):
+        if not f.endswith(".eql"):
+            continue
+        with open(os.path.join(ndir, f)) as fh:
+            src = fh.read()
+        meta = modelgen.read_meta(src)
+        if meta.get("property") != pid:
+            continue
+        out["checked"] += 1
+        wd = os.path.join(common.BUILD, "neg", f"{pid}-{os.getpid()}")
+        text, rc, err = modelgen.compile_theory(common.EQLOG_BIN, f[:-4], src, wd)
+        shutil.rmtree(wd, ignore_errors=True)
+        if rc == 0:
+            out["violations"].append({"sig": f"neg:{f[:-4]}:accepted", "summary": f"the compiler accepts corpus/neg/{f}: {meta.get('why','')}",
+                                      "replay": {"negative_program": f, "text": src}})
+    return out
+
+
 def replay_models(pid, path):
-    binary, _ = modelgen.build_models("k", modelgen.load_corpus("k"))
+    with open(path) as f:
+        case = json.load(f)
+    case = case.get("replay", case)
+    if "negative_program" in case:
+        common.build_compiler()
+        neg = negative_corpus(pid)
+        hit = [v for v in neg["violations"] if v["replay"]["negative_program"] == case["negative_program"]]
+        print(f"REPLAY-VIOLATION property={pid} {hit[0]['summary']}" if hit else f"REPLAY-OK property={pid}: the program is rejected")
+        return 1 if hit else 0
+    batch, theories = model_batch("thorough" if str(case.get("theory", "")).startswith(("ga_", "gb_")) else "quick")
+    binary, _ = modelgen.build_models(batch, theories)
     p = subprocess.run([binary, pid, "--replay", path], env=common.env_offline())
     return p.returncode
 
@@ -207,7 +254,8 @@ register("C20", run_c20, replay_c20)
 # ---------------------------------------------------------------- C16: semi-naive plans
 def run_c16(pid, tier, seed):
     t0 = time.time()
-    binary, infos = modelgen.build_models("k", modelgen.load_corpus("k"))
+    batch, theories = model_batch(tier)
+    binary, infos = modelgen.build_models(batch, theories)
     bad = [i for i in infos if not i["ok"]]
     if bad:
         raise common.MachineryError("corpus theories failed to build: " + "; ".join(i["name"] for i in bad))
